@@ -199,3 +199,10 @@ package parser
 //@ at call parseTokens #1: pnode = result0
 //@ at call parseTokens #1: perr = result1
 //@ ensures same: result0 == pnode && result1 == perr
+
+// The generated stringer slices its name table by a fixed index table.
+//@ globalinv parser._TokenType_index: self[0] == 0 && self[1] == 13 && self[2] == 25 && self[3] == 37
+//@ func (parser.TokenType).String
+//@ props C01
+//@ panics nothing
+//@ assigns nothing
